@@ -526,7 +526,7 @@ def check(ctx):
     ctx.rule("R5", "observer list, by interpretation with plain and bound-method-like observers: registered twice -> called once; removed -> never called; each observer once, in registration order, with (sender, old, new); unwatch_all clears; no other writer of the list")
     ctx.rule("R6", "a full refresh is one update: on both stacks the received segments are installed by a single install call for the whole requested range, made only when the final in-order segment has arrived (C01's install and append guards borrowed) - installing per segment would notify an item that straddles a segment boundary twice and show observers a half-refreshed block")
     from . import c01 as _c01
-    _c01.async_assembly(ctx.borrowed("R6", "C01", only=("R1", "R2", "R3")), repo)
+    _c01.async_assembly(ctx.borrowed("R6", "C01", only=("R1", "R2", "R3")), repo, observe="calls")   # one refresh = one notifying install
     _c01.sync_assembly(ctx.borrowed("R6", "C01", only=("R1", "R2", "R3")), repo)
     ctx.rule("R8", "per received update: what reaches the structure for a partial-update message is that message's changes, each once (C05's message-sequence model on both stacks borrowed) - a handler that replays earlier messages flips unchanged items back and forth, notifying twice for an item that did not change")
     from .c05 import message_sequence_model as _msm
